@@ -58,7 +58,8 @@ RULE = ("(a) one `sites` case: translator/sites.py scans every .py/.pyx under en
         "return bit-for-bit what it returns on freshly built B. (f) `file` cases: ra.load and load_as_concatenated on files "
         "that are rewritten at the same path (same mtime restored) between two calls, compared with a fresh path. Round 3s: "
         "(g) `bgrid` cases: one count matrix, one builder (normalize/transpose/mle); for every container (ndarray, csr_matrix, "
-        "csr_array, csc, coo, lil, dok, bsr, dia) x dtype (int32, int64, float32, float64) x prior_counts (None, a scalar): "
+        "csr_array, csc, coo, lil, dok, bsr, dia) x dtype (int32, int64, float32, float64) x prior_counts (None, a positive scalar, present-but-zero as 0 / 0.0 / "
+        "zero matrix (float, int) / zero row, array-valued: float matrix, int matrix, one broadcast row): "
         "snapshot of the argument (type, dtype, values, stored-entry array) before and after each of two calls on the same "
         "object, digest of both results and of the result on a freshly built equal argument -- all equal. (h) `rahist` "
         "cases: a RaggedArray (int64/int32/float64/bool; nested or flat+lengths construction) receives a program of "
@@ -74,7 +75,13 @@ RULE = ("(a) one `sites` case: translator/sites.py scans every .py/.pyx under en
         "3 000 000) drawn from a seed (uniform, or 85 % of the frames in state 0), int64/int32; four calls in each of four "
         "children with OMP_NUM_THREADS = 1, 4, 8, 16; every table must equal np.bincount over the pair code (= np.histogram2d) "
         "exactly, every mi value the one computed from that table. non-trivial := (g) some combination returned a value, "
-        "(h) an observation returned a value after a successful mutator, (i) all 16 calls returned")
+        "(h) an observation returned a value after a successful mutator, (i) all 16 calls returned"
+        ", (j) at least two process counts returned a value. (j) `nproc` cases: bace.calcDMat (entered exactly as bace() enters it), bace.bace, bace.baysean_prune, "
+        "load_as_concatenated, concatenate_trjs, msm.bootstrap (global NumPy generator re-seeded before every call) with "
+        "1, 2, 4 (and 3) worker processes, 2-3 repetitions each, on inputs whose first block of work is by far the most "
+        "expensive (block counts where early states have the most partners; first trajectory file 20-90x longer than "
+        "the others): digests of every result equal; arguments unchanged.")
+
 TRUSTED = ["translator/sites.py: the `where=` scan (ast for .py, token scan + per-call parse for .pyx), its tables of ufunc / "
            "reduction / allocator names, and the rule that a where= passed through **kwargs or a partial is not seen",
            "heap perturbation is best effort: it relies on NumPy's small-block cache (< 1024 bytes, exact size buckets) and "
@@ -91,11 +98,16 @@ TRUSTED = ["translator/sites.py: the `where=` scan (ast for .py, token scan + pe
            "in-place overwrite of a scipy sparse matrix = replacing its attribute dictionary (object identity kept); of a "
            "RaggedArray = overwriting the cells of its _data (and of _array where that holds copies of the rows)",
            "rahist: 'the rows the array holds' are read from its _data and lengths attributes; the freshly constructed "
-           "comparison array is RaggedArray(list of row copies); skipped when _data is not a 1-d non-object array or a row is empty",
+           "comparison array is constructed in the same form as the array under test (RaggedArray(list of row copies) or "
+           "RaggedArray(elements, lengths=[...])) -- the two forms are different arguments: with equally long rows the first "
+           "returns rows of dtype object, the second typed rows; after a mutator ran, agreement with either form counts; "
+           "skipped when _data is not a 1-d non-object array or a row is empty",
            "thr: a lost update needs threads that really run concurrently; 16 calls x >= 200 000 frames x 2-3 states per case "
            "made every one of 24 multi-thread call groups lose counts on the seeded kernel, but this is a test, not a proof"]
 ASSUMPTIONS = ["masked operations: operands, mask and out already broadcast to one shape",
-               "process-pool code paths (n_procs > 1) are not exercised"]
+               "process-pool code paths (n_procs > 1): exercised by the `nproc` stream for bace (calcDMat, baysean_prune, bace), "
+               "load_as_concatenated, concatenate_trjs and msm.bootstrap with 1/2/4(/3) processes; pockets, the smFRET dye "
+               "routines, save_states and cluster.util.batch_reassign (joblib/pool over trajectory files) are not run"]
 
 _repo = os.environ.get("ENSPARA_REPO", "/repo")
 
@@ -1136,10 +1148,11 @@ def _bg_call(builder, A, prior, eq):
 def _execute_bgrid(case):
     import warnings
     warnings.filterwarnings("ignore")
-    out = {"combos": 0, "values": 0, "errors": {}, "fails": []}
+    out = {"combos": 0, "values": 0, "errors": {}, "fails": [], "prior_values": {}}
     for cont in BG_CONTAINERS:
         for dt in BG_DTYPES:
-            for prior in (None, case["prior"]):
+            for plabel in BG_PRIORS:
+                prior = _bg_prior(case, plabel)
                 A = _container(cont, np.array(case["C"], dtype=dt))
                 s0 = _bg_snapshot(A)
                 r1, v1 = _bg_call(case["builder"], A, prior, case["eq"])
@@ -1147,13 +1160,17 @@ def _execute_bgrid(case):
                 s1 = _bg_snapshot(A)
                 r2, _v = _bg_call(case["builder"], A, prior, case["eq"])
                 s2 = _bg_snapshot(A)
-                r3, _v = _bg_call(case["builder"], _container(cont, np.array(case["C"], dtype=dt)), prior, case["eq"])
+                r3, _v = _bg_call(case["builder"], _container(cont, np.array(case["C"], dtype=dt)), _bg_prior(case, plabel), case["eq"])
                 out["combos"] += 1
                 if "digest" in r1:
-                    out["values"] += 1
+                    out["values"] += plabel in ("none", "scalar")
+                    out["prior_values"][plabel] = out["prior_values"].get(plabel, 0) + 1
                 else:
                     out["errors"][r1["err"]] = out["errors"].get(r1["err"], 0) + 1
-                combo = {"container": cont, "dtype": dt, "prior": prior}
+                combo = {"container": cont, "dtype": dt, "prior": _bg_prior_show(case, plabel)}
+                if isinstance(prior, np.ndarray) and _canon(prior) != _canon(_bg_prior(case, plabel)):
+                    out["fails"].append(dict(combo, why="argument-mutated", before=_preview(_bg_prior(case, plabel)),
+                                             after=_preview(prior), which="prior_counts"))
                 if s1 != s0 or s2 != s0:
                     out["fails"].append(dict(combo, why="argument-mutated", before=_preview(np.array(case["C"], dtype=dt)),
                                              after=_preview(A)))
@@ -1165,11 +1182,46 @@ def _execute_bgrid(case):
     return out
 
 
+# priors: absent, a positive scalar, present-but-zero in every spelling, array-valued (full matrix, one row broadcast)
+BG_PRIORS = ["none", "scalar", "zero-int", "zero-float", "zero-matrix", "zero-matrix-int", "zero-row", "matrix", "matrix-int", "row"]
+
+
+def _bg_prior(case, label):
+    n = len(case["C"])
+    if label == "none":
+        return None
+    if label == "scalar":
+        return case["prior"]
+    if label == "zero-int":
+        return 0
+    if label == "zero-float":
+        return 0.0
+    if label == "zero-matrix":
+        return np.zeros((n, n))
+    if label == "zero-matrix-int":
+        return np.zeros((n, n), dtype=int)
+    if label == "zero-row":
+        return np.zeros(n)
+    if label == "matrix":
+        return np.array(case["prior_arr"], dtype=float) / 2
+    if label == "matrix-int":
+        return np.array(case["prior_arr"], dtype=int)
+    if label == "row":
+        return np.array(case["prior_arr"][0], dtype=float) + 0.5
+    raise KeyError(label)
+
+
+def _bg_prior_show(case, label):
+    v = _bg_prior(case, label)
+    return v if not isinstance(v, np.ndarray) else "%s array %s" % (v.dtype, v.tolist())
+
+
 def _gen_bgrid(rng, builder):
     n = rng.choice([2, 3, 4])
     # mle: connected counts only (the Prinz iteration runs to max_iter = 10**5 sweeps on others: minutes, not a C19 matter)
     C = _counts_matrix(rng, n, zero_p=0.35, connected=builder == "mle" or rng.random() < 0.8)
-    return {"kind": "bgrid", "builder": builder, "C": C, "prior": rng.choice([0.5, 1, 2]), "eq": rng.random() < 0.8}
+    return {"kind": "bgrid", "builder": builder, "C": C, "prior": rng.choice([0.5, 1, 2]), "eq": rng.random() < 0.8,
+            "prior_arr": [[rng.choice([0, 1, 1, 2, 3]) for _ in range(n)] for _ in range(n)]}
 
 
 # ============================================================================ round 3s: RaggedArray call histories
@@ -1306,19 +1358,25 @@ def _ra_make(rows, dtype, build):
     return RaggedArray([_ra_np(r, dtype) for r in rows])
 
 
-def _ra_fresh(A):
+def _ra_fresh(A, build="nested"):
     """a newly constructed RaggedArray holding the rows A holds now (None when A's element store is not a plain 1-d
-    array -- nothing to compare with then)"""
+    array -- nothing to compare with then).  `build` selects the constructor form: "nested" = list of row arrays,
+    "flat" = RaggedArray(elements, lengths=[...]).  The two forms are different arguments for the library: for equally
+    long rows the nested form keeps a 2-d object-dtype row table (row reads come back with dtype object) while the flat
+    form keeps typed rows, so an observation is only ever compared with a twin constructed the way the array under
+    test was (or, once mutators have rebuilt its row table, with either form)."""
     from enspara.ra.ra import RaggedArray
     d, ls = np.asarray(A._data), [int(x) for x in np.asarray(A.lengths)]
     if d.dtype == object or d.ndim != 1 or sum(ls) != len(d) or len(ls) == 0:
         return None
+    if any(n == 0 for n in ls):
+        return None
+    if build == "flat":
+        return RaggedArray(d.copy(), lengths=list(ls))
     rows, s = [], 0
     for n in ls:
         rows.append(d[s:s + n].copy())
         s += n
-    if any(len(r) == 0 for r in rows):
-        return None
     return RaggedArray(rows)
 
 
@@ -1407,13 +1465,16 @@ def _execute_rahist(case):
     A = _ra_make(case["rows"], dtype, case["build"])        # observed
     B = _ra_make(case["rows"], dtype, case["build"])        # twin: receives the mutators only
     out = {"fails": [], "steps": [], "fresh_compared": 0, "twin_compared": 0, "obs_after_append": 0, "obs_after_set": 0,
-           "touched_starts": False, "stale_pattern": False}
-    appended = setted = False
+           "touched_starts": False, "stale_pattern": False, "fresh_other_form": 0}
+    appended = setted = mutated = False
     for k, step in enumerate(case["prog"]):
         role, st = step[0], step[1:]
         if role == "obs":
             s0 = _ra_state(A)
-            F = _ra_fresh(A)
+            # twins are built from the content at this very moment, before the observation runs; every outcome is
+            # reduced to a digest of plain values (dtype/shape/bytes) at the moment it is produced
+            F = _ra_fresh(A, case["build"])
+            G = _ra_fresh(A, "flat" if case["build"] == "nested" else "nested") if mutated else None
             r, v = _ra_outcome(A, st, dtype)
             out["steps"].append(r.get("err", "value"))
             if _ra_state(A) != s0:
@@ -1421,7 +1482,9 @@ def _execute_rahist(case):
             if F is not None:
                 rf, vf = _ra_outcome(F, st, dtype)
                 out["fresh_compared"] += 1
-                if rf != r:
+                if rf != r and G is not None and _ra_outcome(G, st, dtype)[0] == r:
+                    out["fresh_other_form"] += 1          # a mutator rebuilt the row table: equals the other constructor form
+                elif rf != r:
                     out["fails"].append({"why": "fresh", "step": k, "op": st, "got": r.get("err", _preview(v)),
                                          "fresh": rf.get("err", _preview(vf)),
                                          "rows_now": _preview([np.asarray(x) for x in F._array])})
@@ -1441,6 +1504,7 @@ def _execute_rahist(case):
                 out["fails"].append({"why": "twin", "step": k, "op": st, "observed_array": [r.get("err", "done"), _preview(A)],
                                      "unobserved_twin": [rb.get("err", "done"), _preview(B)]})
                 break
+            mutated = True
             if "done" in r:
                 if st[0].startswith("append"):
                     appended = True
@@ -1522,6 +1586,160 @@ def _execute_thr(c):
     return {"runs": runs, "args_kept": hashlib.sha256(x.tobytes() + y.tobytes()).hexdigest() == h0}
 
 
+# ============================================================================ round 3s: worker-process counts
+# every routine of the tree that takes a process count and hands blocks of work to a multiprocessing pool is run with
+# 1, 2 and 4 processes (the pool the code itself creates), several times each, on inputs whose FIRST block is the most
+# expensive one -- so that a routine that takes results in order of completion, or writes blocks to positions derived
+# from completion order, returns something else than the serial run.  Exact equality (digests).
+NPROC_ROUTINES = ["bace.calcDMat", "bace.calcDMat", "bace.bace", "bace.baysean_prune", "load_as_concatenated",
+                  "concatenate_trjs", "msm.bootstrap"]
+NPROC_COUNTS = [1, 2, 4, 3]
+
+
+def _gen_nproc(rng, routine, tier):
+    c = {"kind": "nproc", "routine": routine, "seed": rng.randrange(10 ** 6), "reps": 2 if tier == "quick" else 3,
+         "procs": list(NPROC_COUNTS)}
+    if routine == "bace.calcDMat":
+        c.update(n=rng.choice([80, 110, 150]), fmt=rng.choice(["dense", "dense", "csr"]), chunk=rng.choice([100, 100, 25]),
+                 weak=rng.choice([0, 0, 3]))
+    elif routine == "bace.bace":
+        c.update(n=rng.choice([24, 36]), fmt=rng.choice(["dense", "dense", "csr"]), chunk=rng.choice([4, 8]),
+                 merges=rng.choice([3, 5]), weak=rng.choice([0, 2]))
+    elif routine == "bace.baysean_prune":
+        c.update(n=rng.choice([40, 90, 200]), fmt=rng.choice(["dense", "csr"]), weak=rng.choice([2, 5, 9]))
+    elif routine in ("load_as_concatenated", "concatenate_trjs"):
+        k = rng.choice([3, 4, 6])
+        c.update(lens=[rng.choice([60, 90])] + [rng.choice([1, 2, 3]) for _ in range(k - 1)],       # first file by far the longest
+                 offs=[rng.randrange(0, 300) for _ in range(k)], stride=rng.choice([1, 1, 2]), rewrite="replace")
+    else:
+        c.update(n=rng.choice([30, 60]), m=rng.choice([2, 3]), trials=rng.choice([5, 8]))
+    return c
+
+
+def _nproc_counts(case):
+    """block-structured symmetric counts; every state has partners all over the matrix, so the states early in the
+    list have the most (s, j > s) pairs to score: the first block of work is the most expensive"""
+    import scipy.sparse as sp
+    n, rs = case["n"], np.random.RandomState(case["seed"])
+    c = np.zeros((n, n))
+    for b in np.array_split(np.arange(n), 4):
+        c[np.ix_(b, b)] = rs.randint(20, 200, (len(b), len(b)))
+    c += rs.randint(2, 6, (n, n))
+    c = c + c.T
+    c[np.diag_indices(n)] += 1000
+    for s_ in rs.choice(n, case.get("weak", 0), replace=False) if case.get("weak") else []:
+        c[s_, :] = 0
+        c[:, s_] = 0
+        j = (s_ + 1) % n
+        c[s_, j] = c[j, s_] = 1                       # insufficient statistics: pruned into its neighbour
+    return sp.csr_matrix(c) if case["fmt"] == "csr" else c
+
+
+def _nproc_call(case, k, files):
+    """one call with k worker processes on freshly built arguments -> (value, arguments as left by the call, arguments as built)"""
+    import scipy.sparse as sp
+    routine = case["routine"]
+    if routine.startswith("bace."):
+        from enspara.msm import bace as B
+        c = _nproc_counts(case)
+        c0 = c.copy()
+        if routine == "bace.baysean_prune":
+            cc, labels, keep = B.baysean_prune(c, n_procs=k)
+            return [cc, labels, keep], c, c0
+        if routine == "bace.bace":
+            bf, labels = B.bace(c, c.shape[0] - case["merges"], chunk_size=case["chunk"], n_procs=k)
+            return [sorted(bf.items()), sorted((kk, np.asarray(v)) for kk, v in labels.items())], c, c0
+        # calcDMat exactly as bace() enters it
+        cc, state_map, keep = B.baysean_prune(c, 1)
+        cc = cc.astype("float")
+        w = np.array(cc.sum(axis=1)).flatten()
+        w[keep] += 1
+        unmerged = np.zeros(w.shape[0], dtype=np.int8)
+        unmerged[keep] = 1
+        ind = B.getInds(cc, keep, case["chunk"])
+        dMat = sp.lil_matrix(cc.shape) if sp.issparse(cc) else np.zeros(cc.shape, dtype=np.float32)
+        if sp.issparse(cc):
+            cc = cc.tocsr()
+        bf = {}
+        dMat, minX, minY = B.calcDMat(cc, w, bf, ind, dMat, k, keep, unmerged, case["chunk"])
+        return [dMat, int(minX), int(minY), sorted(bf.items()), len(ind)], c, c0
+    if routine == "load_as_concatenated":
+        from enspara.util.load import load_as_concatenated
+        kw = {} if case["stride"] == 1 else {"stride": case["stride"]}
+        lengths, xyz = load_as_concatenated(files, processes=k, **kw)
+        return [[int(v) for v in lengths], np.array(xyz)], None, None
+    if routine == "concatenate_trjs":
+        from enspara.util.load import concatenate_trjs
+        src = _src_traj()
+        trjs = [src[o:o + n] for o, n in zip(case["offs"], case["lens"])]
+        before = [t.xyz.copy() for t in trjs]
+        t = concatenate_trjs(trjs, n_procs=k)
+        return [np.array(t.xyz), t.n_atoms], [x.xyz for x in trjs], before
+    from enspara.msm import bootstrap as BS
+    rs = np.random.RandomState(case["seed"])
+    data = rs.randint(0, 5, (case["n"], case["m"])).astype("int32")
+    d0 = data.copy()
+    np.random.seed(case["seed"] % 2 ** 31)             # bootstrap draws its resampling indices from the global generator
+    return [np.asarray(x) for x in BS.bootstrap(np.sum, data, case["trials"], n_procs=k, axis=0)], data, d0
+
+
+def _pool_available():
+    import multiprocessing
+    try:
+        with multiprocessing.Pool(processes=2) as pool:
+            return pool.map(abs, [-1, 2]) == [1, 2], ""
+    except Exception as ex:
+        return False, type(ex).__name__
+
+
+def _execute_nproc(case):
+    import warnings
+    warnings.filterwarnings("ignore")
+    ok, why = _pool_available()
+    if not ok:
+        return {"skipped": "a process pool cannot be started here: " + why, "runs": [], "fails": []}
+    out = {"runs": [], "fails": []}
+    d = tempfile.mkdtemp(prefix="c19n_", dir="/tmp")
+    try:
+        files = _file_write("load_as_concatenated", case, os.path.join(d, "x"), "replace") \
+            if case["routine"] == "load_as_concatenated" else None
+        ref = None
+        for rep in range(case["reps"]):
+            for k in case["procs"]:
+                try:
+                    v, a1, a0 = _nproc_call(case, k, files)
+                    r = {"digest": _digest(v)}
+                    if a0 is not None and _canon(a1) != _canon(a0):
+                        out["fails"].append({"why": "argument-mutated", "procs": k})
+                except Exception as ex:
+                    v, r = None, {"err": type(ex).__name__, "msg": str(ex)[:100]}
+                out["runs"].append([k, rep, r.get("err", "value")])
+                if ref is None:
+                    ref = (k, r, _preview(v) if v is not None else None)
+                elif {x: r[x] for x in r if x != "msg"} != {x: ref[1][x] for x in ref[1] if x != "msg"}:
+                    out["fails"].append({"why": "differs", "procs": k, "rep": rep, "got": r.get("err", _preview(v)),
+                                         "ref_procs": ref[0], "ref": ref[1].get("err", ref[2])})
+    finally:
+        shutil.rmtree(d, ignore_errors=True)
+    out["fails"] = out["fails"][:4]
+    return out
+
+
+def _oracle_nproc(c, r):
+    if "err" in r:
+        return [("crash:" + c["routine"], "process-count stream: %s (case %s)" % (r, json.dumps(c)[:300]))]
+    out = []
+    what = "%s on the input built from %s" % (c["routine"], json.dumps({k: v for k, v in c.items() if k not in ("kind", "routine", "reps", "procs")}))
+    for f in r["fails"]:
+        if f["why"] == "argument-mutated":
+            out.append(("argument-mutated:" + c["routine"], "%s with %d worker processes changed its argument" % (what, f["procs"])))
+        else:
+            out.append(("process-count-dependence:" + c["routine"],
+                        "%s: with %d worker processes (repetition %d) it returned %s; with %d: %s"
+                        % (what, f["procs"], f["rep"], str(f["got"])[:300], f["ref_procs"], str(f["ref"])[:300])))
+    return out
+
+
 # ============================================================================ child processes
 class _Child:
     def __init__(self, threads, label):
@@ -1580,7 +1798,8 @@ def _child(label, threads):
     return _children[label]
 
 
-EXECUTORS = {"file": _execute_file, "bgrid": _execute_bgrid, "rahist": _execute_rahist, "thr": _execute_thr}
+EXECUTORS = {"file": _execute_file, "bgrid": _execute_bgrid, "rahist": _execute_rahist, "thr": _execute_thr,
+             "nproc": _execute_nproc}
 
 
 def _worker_main():
@@ -1719,6 +1938,8 @@ def generate(rng, tier):
             cases.append(_gen_bgrid(rng, b))
     for _ in range(150 if tier == "quick" else 1500):
         cases.append(_gen_rahist(rng))
+    for k in range(len(NPROC_ROUTINES) if tier == "quick" else 4 * len(NPROC_ROUTINES)):
+        cases.append(_gen_nproc(rng, NPROC_ROUTINES[k % len(NPROC_ROUTINES)], tier))
     thr = [_gen_thr(rng, tier) for _ in range(8 if tier == "quick" else 40)]
     for k, (routine, form) in enumerate([("joint_counts", "1d"), ("joint_counts", "col"), ("joint_counts", "self"),
                                          ("mi_matrix", "col")]):
@@ -1806,7 +2027,7 @@ def run_impl(c):
         return _run_ufunc(c)
     if c["kind"] == "wbr":
         return _run_wbr(c)
-    if c["kind"] in ("bgrid", "rahist"):
+    if c["kind"] in ("bgrid", "rahist", "nproc"):
         return _child("t1", 1).call(c)
     if c["kind"] == "thr":
         return {lab: _child(lab, n).call(c) for lab, n in THR_CHILDREN}
@@ -1832,8 +2053,8 @@ def _oracle_bgrid(c, r):
         what = "%s(%s %s, prior_counts=%s, calculate_eq_probs=%s) on counts %s" % (
             name, f["container"], f["dtype"], f["prior"], c["eq"], json.dumps(c["C"]))
         if f["why"] == "argument-mutated":
-            out.append(("argument-mutated:" + name, "%s changed its argument: it held %s and holds %s after the call"
-                        % (what, f["before"], f["after"])))
+            out.append(("argument-mutated:" + name, "%s changed its %s argument: it held %s and holds %s after the call"
+                        % (what, f.get("which", "counts"), f["before"], f["after"])))
         elif f["why"] == "repeat":
             out.append(("history-dependence:" + name, "%s: a second call with the same object returned %s, the first %s (value %s)"
                         % (what, f["second"], f["first"], str(f["first_value"])[:300])))
@@ -1945,6 +2166,8 @@ def oracle(c, r):
         return _oracle_bgrid(c, r)
     if c["kind"] == "rahist":
         return _oracle_rahist(c, r)
+    if c["kind"] == "nproc":
+        return _oracle_nproc(c, r)
     if c["kind"] == "thr":
         return _oracle_thr(c, r)
     name = c["routine"]
@@ -2088,6 +2311,8 @@ def nontrivial(c, r):
         return "err" not in r and r.get("obs_after_append", 0) + r.get("obs_after_set", 0) > 0
     if c["kind"] == "thr":
         return all("runs" in r.get(lab, {}) and all("err" not in x for x in r[lab]["runs"]) for lab, _n in THR_CHILDREN)
+    if c["kind"] == "nproc":
+        return "err" not in r and len({k for k, _rep, how in r.get("runs", []) if how == "value"}) >= 2
     return _ok_everywhere(r)
 
 
@@ -2146,6 +2371,20 @@ def tags(c, r):
         t = ["bgrid:" + c["builder"]]
         if r["values"] == len(BG_CONTAINERS) * len(BG_DTYPES) * 2:
             t.append("bgrid-every-combination-returned-a-value")
+        pv = r.get("prior_values", {})
+        if any(pv.get(l) for l in BG_PRIORS if l.startswith("zero")):
+            t.append("bgrid-prior-present-but-zero")
+        if any(pv.get(l) for l in ("matrix", "matrix-int", "row")):
+            t.append("bgrid-prior-array-valued")
+        return t
+    if c["kind"] == "nproc":
+        if "err" in r:
+            return ["exception-or-crash"]
+        if "skipped" in r:
+            return ["nproc", "nproc-pool-unavailable"]
+        t = ["nproc", "nproc:" + c["routine"]]
+        t += ["nproc-compared-1-2-4-processes:" + c["routine"]] if nontrivial(c, r) else []
+        t += ["nproc-call-raises"] if any(how != "value" for _k, _rep, how in r["runs"]) else []
         return t
     if c["kind"] == "rahist":
         if "err" in r:
@@ -2156,6 +2395,8 @@ def tags(c, r):
         t += ["rahist-offsets-read-then-append-then-2d-lookup"] if r["stale_pattern"] else []
         t += ["rahist-compared-with-fresh"] if r["fresh_compared"] else []
         t += ["rahist-compared-with-twin"] if r["twin_compared"] else []
+        t += ["rahist-agrees-with-other-constructor-form-only"] if r.get("fresh_other_form") else []
+        t += ["rahist-rectangular-built-flat"] if c["build"] == "flat" and len({len(x) for x in c["rows"]}) == 1 else []
         t += ["rahist-step-raises"] if any(x not in ("value", "done") for x in r["steps"]) else []
         return t
     if c["kind"] == "thr":
@@ -2191,7 +2432,8 @@ ESSENTIAL_TAGS = (["sites-scan", "masked-site-guarded", "ufunc-out", "ufunc-noou
                   + ["cache-scan-clean", "wbr-random", "wbr-tile", "wbr-enum", "wbr-gap", "wbr-oob-rejected", "wbr-all-written",
                      "wbr-cell-left-unwritten", "overwrite-probe-changed", "file-rewritten-at-same-path"]
                   + ["overwrite-probe:" + n for n in ROUTINES] + ["value:" + n for n in ("ra.load", "load_as_concatenated")]
-                  + ["bgrid:" + b for b in BG_BUILDERS] + ["bgrid-every-combination-returned-a-value", "rahist-observed-after-append",
+                  + ["bgrid:" + b for b in BG_BUILDERS] + ["bgrid-every-combination-returned-a-value", "bgrid-prior-present-but-zero",
+                     "bgrid-prior-array-valued", "nproc", "rahist-rectangular-built-flat", "rahist-observed-after-append",
                      "rahist-observed-after-setitem", "rahist-offsets-read-then-append-then-2d-lookup", "rahist-compared-with-fresh",
                      "rahist-compared-with-twin", "thr:joint_counts-1d", "thr:joint_counts-col", "thr:joint_counts-self",
                      "thr:mi_matrix-col", "threads-4", "threads-16"])
